@@ -16,6 +16,7 @@
 package c15
 
 import (
+	"errors"
 	"encoding/json"
 	"fmt"
 	"math"
@@ -256,14 +257,21 @@ func runPure(c kase, cuts []int) (discovery.Agg, runInfo, error) {
 	return agg, info, nil
 }
 
+// lostState: the state file as the plugin left it after flushes it reported as successful cannot be read back -
+// that is the statement's "written to disk and read back, the totals are preserved" failing outright, not a
+// problem of the harness.
+type lostState struct{ msg string }
+
+func (e *lostState) Error() string { return e.msg }
+
 func readState(path string) (*discovery.Agg, error) {
 	b, err := os.ReadFile(path)
 	if err != nil {
-		return nil, err
+		return nil, &lostState{fmt.Sprintf("the state file cannot be read: %v", err)}
 	}
 	out := sd.Output{}
 	if err := json.Unmarshal(b, &out); err != nil {
-		return nil, fmt.Errorf("state file is not valid JSON: %w", err)
+		return nil, &lostState{fmt.Sprintf("the state file the plugin wrote is not valid JSON: %v (%d bytes; it ends %.80q)", err, len(b), string(b[max(0, len(b)-80):]))}
 	}
 	return discovery.ConvertFromPersisted(out), nil
 }
@@ -301,7 +309,7 @@ func runStateful(c kase, cuts []int, restart []bool, dir string, check func(a *d
 			}
 			st = &discovery.State{DiscoverFilepath: path}
 			if err := st.InitializeState(); err != nil {
-				return nil, info, fmt.Errorf("InitializeState after restart: %w", err)
+				return nil, info, &lostState{fmt.Sprintf("after a restart at record %d the plugin cannot load the state it wrote: %v", b[0], err)}
 			}
 			info.silent, info.loud, info.miss, info.unseen = info.silent+tree.silent, info.loud+tree.loud, info.miss+tree.miss, info.unseen+tree.silentUnseen
 			if tree, err = buildTree(c); err != nil {
@@ -1335,6 +1343,11 @@ func evaluate(c kase, dir string) (o outcome) {
 		}
 		return nil
 	})
+	var lost *lostState
+	if errors.As(err, &lost) {
+		o.violation = fmt.Errorf("Run with a state file (cuts %v, restarts %v): %s - everything discovered so far is gone", c.CutsB, c.Restart, lost.msg)
+		return
+	}
 	if err != nil {
 		o.violation = fmt.Errorf("VERIF-INFRA: stateful run could not be driven: %v", err)
 		return
